@@ -39,14 +39,16 @@ def model_docs(ctx, tier):
 
 def inline_docs(tier):
     """every string over small inline alphabets as a one-paragraph document (and inside a heading / list item / quote):
-    emphasis {a, space, *, _}, links {a, [, ], (, ), !}, code and escapes {a, `, \\, space}"""
+    emphasis {a, space, *, _}, links {a, [, ], (, ), !}, code and escapes {a, `, \\, space}, raw HTML tags {<, a, space, >, /, =, "},
+    comments / declarations {<, a, !, -, >}"""
     import itertools
     out = []
-    for alpha, nq, nt in (("a *_", 6, 7), ("a[]()!", 4, 6), ("a`\\ ", 4, 6), ("a*_[]`", 4, 5)):
+    for alpha, nq, nt in (("a *_", 6, 7), ("a[]()!", 4, 6), ("a`\\ ", 4, 6), ("a*_[]`", 4, 5), ("<a >/=\"", 5, 6), ("<a!->", 5, 7)):
         for n in range(1, (nq if tier == "quick" else nt) + 1):
             for tup in itertools.product(alpha, repeat=n):
                 s = "".join(tup)
-                if s.strip() and not s.startswith(" ") and not s.endswith(" "):
+                # raw HTML / autolink alphabets: leading and trailing blanks matter (tag scanning runs to the end of the line)
+                if s.strip() and ("<" in alpha or (not s.startswith(" ") and not s.endswith(" "))):
                     out.append(s)
     out = sorted(set(out))
     docs = []
